@@ -8,16 +8,20 @@
   Corollaries: `alt_codedir_unvouched_rejected`, `extra_codedir_rejected`, `strip_codedir_rejected`,
   `code_change_rejected`, `special_slot_change_rejected`, `bundle_param_change_rejected`, `cdhash_list_change_rejected`,
   `cms_binds_first_directory`.
-  Stated gaps of the unchanged code (theorems with witnesses, replayed on the real code as `prot=0` ops):
+  The model carries the two repairs as switches (`Fixes`): `tree` = ⟨true, true⟩ = the CURRENT code (what the
+  correspondence runs against), `Fixes.orig` = the code before the fix commits.
+  Current code, full strength: `csblob_every_directory_vouched` (every directory of an accepted superblob is the first one
+  or stands in the signed plist, for signed lists without repetition), `fixed_alternates_need_plist`,
+  `fixed_unvouched_alternate_rejected`, `ipa_bundle_files_bound` (thin AND fat, any number of slices).
+  Defects of the ORIGINAL code, kept as theorems about `Fixes.orig`: `csblob_unvouched_alternate_accepted_orig`,
+  `csblob_every_directory_vouched_full_orig_false` (F-CSV-1, repaired by 994e09d), `ipa_bundle_files_bound_full_orig_false`,
+  `fat_drops_bundle_params` (F-CSV-2, repaired by 91159af); replayed as regression ops from
+  corpus/C02/csverify_findings.ops (expected now: rejection).
+  Stated gaps of the current code (theorems with witnesses, replayed on the real code as `prot=0` ops):
   `special_blob_unbound_accepted`, `zero_code_slots_accept_any_code`, `dir_slot_unbound`, `last_signer_attrs_only`,
-  `plist_same_alg_gap`.
-  FINDINGS (the property fails on the unchanged tree; witnesses replayed from corpus/C02/csverify_findings.ops):
-  `csblob_unvouched_alternate_accepted` (F-CSV-1: without the plist attribute an appended alternate code directory of a
-  hash type the CDHashes2 attribute does not list is covered by nothing, yet it becomes `bestDir` and decides the page
-  hashes), `fat_drops_bundle_params` (F-CSV-2: `verifyFat` does not pass the bundle's Info.plist / CodeResources to the
-  slices of a fat executable).  The model carries the two proposed repairs as switches (`Fixes`; `tree` = what the
-  correspondence runs against = the unchanged tree): `fixed_unvouched_alternate_rejected`, `fixed_alternates_need_plist`,
-  `fixed_fat_bundle_files_bound` are the statements that hold once patches/F-CSV-1.patch / F-CSV-2.patch are in.
+  `plist_same_alg_gap`, `same_alg_unvouched_directory_accepted` / `csblob_every_directory_vouched_full_false` (what the
+  unconditional statement still lacks: `computed` is a map keyed by hash function, so a signed list that REPEATS an entry
+  vouches for the last directory of a hash type at every position of that type).
 -/
 import Relic.Proofs.CsVerify
 namespace Relic.Props.C02
@@ -354,18 +358,18 @@ example : [(csToyH 5 dirA.raw).take 20].Nodup ∧ (csToyH dirX.alg dirX.raw).tak
 example : dirA.d.code.length = (pages (2 ^ dirA.d.hdr.pageShift) csToyFile).length ∧ codeSize dirA.d.hdr = (csToyFile.length : Int) ∧
     (∀ e ∈ dirA.d.code, allZero e = false) := by decide
 
-/-- **FINDING F-CSV-1 — csblob_unvouched_alternate_accepted.** Without the cdhashes plist attribute (signatures of
-    older tools; CDHashes2 alone only speaks about the hash types it lists; with neither attribute nothing is said at
-    all) an appended alternate directory of a STRONGER hash type is covered by nothing — yet it is `bestDir`, so the
-    altered image passes `machos.Verify`.  Both variants: -/
-theorem csblob_unvouched_alternate_accepted :
+/-- **FINDING F-CSV-1 (repaired by 994e09d) — csblob_unvouched_alternate_accepted_orig.** On the ORIGINAL code, without
+    the cdhashes plist attribute (signatures of older tools; CDHashes2 alone only speaks about the hash types it lists;
+    with neither attribute nothing is said at all) an appended alternate directory of a STRONGER hash type is covered by
+    nothing — yet it is `bestDir`, so the altered image passes `machos.Verify`.  Both variants: -/
+theorem csblob_unvouched_alternate_accepted_orig :
     (machoPlan Fixes.orig ⟨none, none, none⟩ (sigA stdCdh .absent [dirA, dirX]) csToyAlt false).run csToyH = .ok () ∧
     (machoPlan Fixes.orig ⟨none, none, none⟩ (sigA .absent .absent [dirA, dirX]) csToyAlt false).run csToyH = .ok () ∧
     bestDir [dirA, dirX] = some dirX ∧
     -- while the signed image itself no longer passes (the pages are judged by the attacker's directory)
     (machoPlan Fixes.orig ⟨none, none, none⟩ (sigA stdCdh .absent [dirA, dirX]) csToyFile false).run csToyH = .err "page" := by decide
 
-/-- with patches/F-CSV-1.patch both witnesses are refused … -/
+/-- with the repair (`fx.vouch`, the current code) both witnesses are refused … -/
 theorem fixed_unvouched_alternate_rejected (fx : Fixes) (hfx : fx.vouch = true) :
     (machoPlan fx ⟨none, none, none⟩ (sigA stdCdh .absent [dirA, dirX]) csToyAlt false).run csToyH = .err "unvouched" ∧
     (machoPlan fx ⟨none, none, none⟩ (sigA .absent .absent [dirA, dirX]) csToyAlt false).run csToyH = .err "unvouched" ∧
@@ -388,36 +392,128 @@ theorem fixed_alternates_need_plist (H : Nat → Bytes → Bytes) (fx : Fixes) (
   | bad => rw [hp] at hpl; exact absurd hpl (by simp [PlistAttrOk])
   | val L => rw [hp] at hpl; exact ⟨c, si, L, hc, hsi, hp, hpl⟩
 
-/-- the full-strength statement C02 asks for: every code directory of an accepted superblob is vouched for by the
-    CMS — it is the first one (messageDigest) or its digest is listed in one of the two signed attributes -/
-def csblob_every_directory_vouched_full : Prop :=
-  ∀ (H : Nat → Bytes → Bytes) (P : CsVerify.Params) (s : Sig), (verifyPlan tree P s).run H = .ok () →
-    ∀ x ∈ s.dirs, (∃ rest, s.dirs = x :: rest) ∨
-      ∃ c si, s.cms = some c ∧ c.signers.getLast? = some si ∧
-        ((∃ L, si.plist = .val L ∧ (H x.alg x.raw).take 20 ∈ L) ∨ (∃ l, si.cdhashes = .val l ∧ (some x.alg, H x.alg x.raw) ∈ l))
+/-- "`x` is vouched for by the CMS": it is the first directory (messageDigest) or its digest is listed in one of the
+    two signed attributes of the signer info that is read -/
+def Vouched (H : Nat → Bytes → Bytes) (s : Sig) (x : CD) : Prop :=
+  (∃ rest, s.dirs = x :: rest) ∨
+    ∃ c si, s.cms = some c ∧ c.signers.getLast? = some si ∧
+      ((∃ L, si.plist = .val L ∧ (H x.alg x.raw).take 20 ∈ L) ∨ (∃ l, si.cdhashes = .val l ∧ (some x.alg, H x.alg x.raw) ∈ l))
 
-/-- it is FALSE on the unchanged tree (witness: F-CSV-1) -/
-theorem csblob_every_directory_vouched_full_false : ¬ csblob_every_directory_vouched_full := by
+/-- the statement without any hypothesis on the signed list: every code directory of an accepted superblob is vouched for -/
+def csblob_every_directory_vouched_full (fx : Fixes) : Prop :=
+  ∀ (H : Nat → Bytes → Bytes) (P : CsVerify.Params) (s : Sig), (verifyPlan fx P s).run H = .ok () → ∀ x ∈ s.dirs, Vouched H s x
+
+/-- **csblob_every_directory_vouched** (the CURRENT code, `fx.vouch`): every code directory of an accepted superblob is
+    the first one or its truncated digest stands in the signed cdhashes plist — provided the signed list, when present,
+    has pairwise distinct entries (a signer lists the hashes of its distinct directories).  With the repair a second
+    directory needs the plist, and the plist binds count and position. -/
+theorem csblob_every_directory_vouched (H : Nat → Bytes → Bytes) (fx : Fixes) (hfx : fx.vouch = true) (P : CsVerify.Params) (s : Sig)
+    (hacc : (verifyPlan fx P s).run H = .ok ())
+    (hnd : ∀ c si L, s.cms = some c → c.signers.getLast? = some si → si.plist = .val L → L.Nodup) :
+    ∀ x ∈ s.dirs, Vouched H s x := by
+  intro x hx
+  obtain ⟨_, d0, rest, hd, c, hc, _, si, hsi, _, _, _, _⟩ := (csblob_accept_iff H fx P s).mp hacc
+  by_cases h1 : 1 < s.dirs.length
+  · obtain ⟨c', si', L, hc', hsi', hp, hL⟩ := fixed_alternates_need_plist H fx hfx P s hacc h1
+    have hN := hnd c' si' L hc' hsi' hp
+    right
+    refine ⟨c', si', hc', hsi', Or.inl ⟨L, hp, ?_⟩⟩
+    have hpw : s.dirs.Pairwise (fun a b => a.alg ≠ b.alg) := by
+      rw [hL] at hN
+      refine List.Pairwise.of_map (computedAt H s.dirs) ?_ hN
+      intro a b hab heq
+      apply hab
+      simp only [computedAt, heq]
+    have hlast : lastRaw s.dirs x.alg = x.raw := by
+      simp [lastRaw, lastWithAlg, filter_alg_singleton s.dirs hpw x hx]
+    rw [hL, List.mem_map]
+    exact ⟨x, hx, by simp only [computedAt, hlast]⟩
+  · left
+    rw [hd] at hx h1
+    have : rest = [] := by
+      cases rest with
+      | nil => rfl
+      | cons y ys => simp at h1
+    subst this
+    rcases List.mem_singleton.mp hx with rfl
+    exact ⟨[], hd⟩
+
+/-- helpers to refute `Vouched` on a concrete signature with one signer info -/
+theorem vouched_single_signer (H : Nat → Bytes → Bytes) (s : Sig) (x : CD) (e : Option Bytes) (sv : SignerV) (ts : Bool)
+    (hc : s.cms = some ⟨e, [sv], ts⟩) (h : Vouched H s x) :
+    (∃ rest, s.dirs = x :: rest) ∨ (∃ L, sv.plist = .val L ∧ (H x.alg x.raw).take 20 ∈ L) ∨
+      (∃ l, sv.cdhashes = .val l ∧ (some x.alg, H x.alg x.raw) ∈ l) := by
+  rcases h with h | ⟨c, si, hc', hsi, hh⟩
+  · exact Or.inl h
+  · rw [hc] at hc'
+    cases hc'
+    have : si = sv := by
+      have : ([sv] : List SignerV).getLast? = some sv := rfl
+      rw [this] at hsi
+      exact (Option.some.inj hsi).symm
+    subst this
+    exact Or.inr hh
+
+/-- **csblob_every_directory_vouched_full_orig_false**: on the ORIGINAL code the statement is false even for signed lists
+    without repetition — indeed without any list (witness: F-CSV-1) -/
+theorem csblob_every_directory_vouched_full_orig_false : ¬ csblob_every_directory_vouched_full Fixes.orig := by
   intro h
-  have := h csToyH ⟨none, none, none⟩ (sigA stdCdh .absent [dirA, dirX]) (by decide) dirX (by decide)
-  rcases this with ⟨rest, hr⟩ | ⟨c, si, hc, hsi, hh⟩
+  have hv := h csToyH ⟨none, none, none⟩ (sigA stdCdh .absent [dirA, dirX]) (by decide) dirX (by decide)
+  rcases vouched_single_signer csToyH _ dirX none _ true rfl hv with ⟨rest, hr⟩ | ⟨L, hL, _⟩ | ⟨l, hl, hm⟩
   · have h0 : (sigA stdCdh .absent [dirA, dirX]).dirs = [dirA, dirX] := rfl
     rw [h0] at hr
     have : dirA = dirX := (List.cons.inj hr).1
     revert this; decide
-  · have hc' : (sigA stdCdh .absent [dirA, dirX]).cms = some ⟨none, [csToySigner (csToyH 5 dirA.raw) stdCdh .absent], true⟩ := rfl
-    rw [hc'] at hc
-    cases hc
-    have hs' : ([csToySigner (csToyH 5 dirA.raw) stdCdh .absent] : List SignerV).getLast? = some (csToySigner (csToyH 5 dirA.raw) stdCdh .absent) := rfl
-    rw [hs'] at hsi
-    cases hsi
-    rcases hh with ⟨L, hL, _⟩ | ⟨l, hl, hm⟩
-    · cases hL
-    · have : l = [(some 5, csToyH 5 dirA.raw)] := by
-        have : stdCdh = AttrV.val l := hl
-        cases this; rfl
-      subst this
-      revert hm; decide
+  · cases hL
+  · have : l = [(some 5, csToyH 5 dirA.raw)] := by
+      have : stdCdh = AttrV.val l := hl
+      cases this; rfl
+    subst this
+    revert hm; decide
+
+/-- what is still missing on the current code: `computed` is a map keyed by hash function, so a signed list with a
+    REPEATED entry vouches for the last directory of a hash type at every position of that type.  A SHA-1 directory in
+    slot 0, the attacker's SHA-256 directory over altered code in slot 0x1000, the signer's SHA-256 directory in slot
+    0x1001, and a signer that listed its SHA-256 digest twice: -/
+def dirS : CD := csToyCD 0 1 [0xA] [[], csToyH 3 csToyReq] [csToyH 3 [1, 2, 3, 4], csToyH 3 [5, 6]] 2 6
+def dirXs : CD := csToyCD 0x1000 2 [0xB] [[], csToyH 5 csToyReq] [csToyH 5 [1, 2, 9, 4], csToyH 5 [5, 6]] 2 6
+def dirC : CD := csToyCD 0x1001 2 [0xC] [[], csToyH 5 csToyReq] [csToyH 5 [1, 2, 3, 4], csToyH 5 [5, 6]] 2 6
+def svS : SignerV :=
+  ⟨some 5, true, some (csToyH 5 dirS.raw), true, .val [(some 3, csToyH 3 dirS.raw), (some 5, csToyH 5 dirC.raw)],
+   .val [(csToyH 3 dirS.raw).take 20, (csToyH 5 dirC.raw).take 20, (csToyH 5 dirC.raw).take 20]⟩
+def sigS : Sig := ⟨none, none, some csToyReq, [dirS, dirXs, dirC], some ⟨none, [svS], true⟩⟩
+
+/-- **same_alg_unvouched_directory_accepted** (stated gap, every tree): the middle directory is vouched for by nothing,
+    is `bestDir` (first of the strongest type) and lets the altered image pass -/
+theorem same_alg_unvouched_directory_accepted (fx : Fixes) :
+    (machoPlan fx ⟨none, none, none⟩ sigS csToyAlt false).run csToyH = .ok () ∧ bestDir sigS.dirs = some dirXs := by
+  obtain ⟨v, f⟩ := fx
+  cases v <;> cases f <;> decide
+
+/-- **csblob_every_directory_vouched_full_false**: without the hypothesis on the signed list the statement fails on the
+    current code too (and on every tree) — exactly for the witness above: the list must repeat an entry, which no signer
+    of distinct directories produces.  The repair that would close it: compare position `i` of the plist with
+    `dirs[i].CDHash[:20]` instead of `computed[dirs[i].HashFunc][:20]`. -/
+theorem csblob_every_directory_vouched_full_false (fx : Fixes) : ¬ csblob_every_directory_vouched_full fx := by
+  intro h
+  have hv := h csToyH ⟨none, none, none⟩ sigS
+    (by have := (macho_accept_iff csToyH fx ⟨none, none, none⟩ sigS csToyAlt false).mp (same_alg_unvouched_directory_accepted fx).1
+        exact (verifyPlan_ok csToyH fx _ _).mpr this.1) dirXs (by decide)
+  rcases vouched_single_signer csToyH sigS dirXs none svS true rfl hv with ⟨rest, hr⟩ | ⟨L, hL, hm⟩ | ⟨l, hl, hm⟩
+  · have h0 : sigS.dirs = [dirS, dirXs, dirC] := rfl
+    rw [h0] at hr
+    have : dirS = dirXs := (List.cons.inj hr).1
+    revert this; decide
+  · have : L = [(csToyH 3 dirS.raw).take 20, (csToyH 5 dirC.raw).take 20, (csToyH 5 dirC.raw).take 20] := by
+      have : svS.plist = AttrV.val L := hL
+      cases this; rfl
+    subst this
+    revert hm; decide
+  · have : l = [(some 3, csToyH 3 dirS.raw), (some 5, csToyH 5 dirC.raw)] := by
+      have : svS.cdhashes = AttrV.val l := hl
+      cases this; rfl
+    subst this
+    revert hm; decide
 
 /-- **dir_slot_unbound** (stated gap): the slot number of a directory is bound by nothing — the signed directory in
     slot 0x1000 instead of 0 is accepted just the same -/
@@ -463,24 +559,44 @@ theorem fat_drops_bundle_params (fx : Fixes) (hfx : fx.fatParams = false) (info 
     fatPlans fx true info res slices = fatPlans fx true info' res' slices := by
   simp [fatPlans, wrapParams, hfx]
 
-def ipa_bundle_files_bound_full : Prop :=
-  ∀ (H : Nat → Bytes → Bytes) (fat : Bool) (info res : Bytes) (s : Sig) (file : Bytes),
-    (∀ p ∈ fatPlans tree fat (some info) (some res) [(s, file, none)], p.run H = .ok ()) →
-    ∀ x ∈ s.dirs, (∀ v, x.slot 1 = some v → H x.alg info = v) ∧ (∀ v, x.slot 3 = some v → H x.alg res = v)
+/-- a changed Info.plist / CodeResources of a bundle makes `verifyIPA` fail, thin AND fat: every directory of every
+    slice that carries slot −1 / −3 holds the digest of the bundle's file -/
+def ipa_bundle_files_bound_full (fx : Fixes) : Prop :=
+  ∀ (H : Nat → Bytes → Bytes) (fat : Bool) (info res : Bytes) (slices : List (Sig × Bytes × Option Bytes)),
+    (∀ p ∈ fatPlans fx fat (some info) (some res) slices, p.run H = .ok ()) →
+    ∀ sl ∈ slices, ∀ x ∈ sl.1.dirs, (∀ v, x.slot 1 = some v → H x.alg info = v) ∧ (∀ v, x.slot 3 = some v → H x.alg res = v)
+
+/-- **ipa_bundle_files_bound** (the CURRENT code, full strength): holds for thin and fat executables, any number of
+    slices, with or without an embedded plist section -/
+theorem ipa_bundle_files_bound (fx : Fixes) (hfx : fx.fatParams = true) : ipa_bundle_files_bound_full fx := by
+  intro H fat info res slices hall sl hsl x hx
+  have hp := hall (machoPlan fx (wrapParams fx fat (some info) (some res) sl.2.2) sl.1 sl.2.1 false)
+    (by simp only [fatPlans, List.mem_map]; exact ⟨sl, hsl, rfl⟩)
+  have hw : wrapParams fx fat (some info) (some res) sl.2.2 = ⟨some info, some res, none⟩ := by
+    cases fat <;> simp [wrapParams, hfx, effInfo]
+  rw [hw] at hp
+  have h := ((macho_accept_iff H fx _ sl.1 sl.2.1 false).mp hp).1.1 x hx
+  exact ⟨h.2.2.2.2.1 info rfl, h.2.2.2.2.2 res rfl⟩
+
+theorem ipa_bundle_files_bound_current : ipa_bundle_files_bound_full tree := ipa_bundle_files_bound tree rfl
 
 /-- a directory that binds an Info.plist in slot −1 -/
 def dirI : CD := csToyCD 0 2 [0xA] [csToyH 5 [0x49]] [csToyH 5 [1, 2, 3, 4], csToyH 5 [5, 6]] 2 6
 def sigI : Sig := ⟨none, none, none, [dirI], some ⟨none, [csToySigner (csToyH 5 dirI.raw) (.val [(some 5, csToyH 5 dirI.raw)]) (.val [(csToyH 5 dirI.raw).take 20])], true⟩⟩
 
-/-- FALSE for fat executables on the unchanged tree: an altered Info.plist is accepted (thin: rejected) -/
-theorem ipa_bundle_files_bound_full_false : ¬ ipa_bundle_files_bound_full := by
+/-- **FINDING F-CSV-2 (repaired by 91159af) — ipa_bundle_files_bound_full_orig_false**: FALSE for fat executables on the
+    ORIGINAL code: an altered Info.plist is accepted (thin: rejected) -/
+theorem ipa_bundle_files_bound_full_orig_false : ¬ ipa_bundle_files_bound_full Fixes.orig := by
   intro h
-  have := (h csToyH true [0x4a] [] sigI csToyFile (by decide) dirI (by decide)).1
+  have := (h csToyH true [0x4a] [] [(sigI, csToyFile, none)] (by decide) (sigI, csToyFile, none) (by simp) dirI (by decide)).1
   revert this
   decide
 
 example : ∀ p ∈ fatPlans Fixes.orig false (some [0x49]) none [(sigI, csToyFile, none)], p.run csToyH = .ok () := by decide
 example : ∃ p ∈ fatPlans Fixes.orig false (some [0x4a]) none [(sigI, csToyFile, none)], p.run csToyH = .err "info_plist" := by decide
 example : ∀ p ∈ fatPlans Fixes.orig true (some [0x4a]) none [(sigI, csToyFile, none)], p.run csToyH = .ok () := by decide
+/-- the current code: the fat slice is judged against the bundle's Info.plist -/
+example : ∃ p ∈ fatPlans tree true (some [0x4a]) none [(sigI, csToyFile, none)], p.run csToyH = .err "info_plist" := by decide
+example : ∀ p ∈ fatPlans tree true (some [0x49]) none [(sigI, csToyFile, none)], p.run csToyH = .ok () := by decide
 
 end Relic.Props.C02
